@@ -118,6 +118,7 @@ def resStr : Res → String
   | .tooLarge => "big"
   | .full => "full"
   | .ctxErr => "ctx"
+  | .stopped => "stopped"
   | .result e => if e = 0 then "nil" else s!"e{e}"
 
 def QD.pstatus (d : QD) (p : Nat) : String :=
@@ -206,6 +207,17 @@ def mkQueueHandler (persistent : Bool) : Handler QD where
           | some d' => let d2 := QD.closure 10000 d'; (d2, [d2.obs])
           | none => ({ d with bad := true }, ["obs bad-step"])
         | none => (d, ["obs bad-op"])
+      | "restore" :: rest =>
+        -- persistent queue started on non-empty storage: stored requests (accepted in an earlier life) and the restored size
+        if !d.persistent then (d, ["obs bad-op"]) else
+        match parseBurst (rest.filter (fun t => !(t.startsWith "size="))), (Check.kvOf rest "size").bind String.toInt? with
+        | some items, some sz =>
+          let ids := items.map (·.1)
+          let s0 : St := { items := items, size := sz, accepted := ids,
+                           ps := fun p => if p ∈ ids then { ph := .done .ok } else {} }
+          let d' := { d with s := s0 }
+          (d', [d'.obs])
+        | _, _ => (d, ["obs bad-op"])
       | ["read", c] =>
         match c.toNat? with
         | some c => d.ext (.read c)
@@ -297,8 +309,8 @@ def configHandler : Handler GD where
             match p.toNat?, el.toInt? with
             | some p, some el =>
               let st := (ps.lookup p).getD "?"
-              fail g (!(Check.refusalClause false g.q.k.block g.q.k.cap g.prevSize el st))
-                s!"sig=C02/config/refusal-not-exact-for-configured-sizer p={p} configured-size={el} reported-size-before={g.prevSize} queue_size={g.q.k.cap} got {st} want-refusal '{Check.expectedRefusal false g.q.k.block g.q.k.cap g.prevSize el}'"
+              fail g (!(Check.refusalClause false g.q.k.block false g.q.k.cap g.prevSize el st))
+                s!"sig=C02/config/refusal-not-exact-for-configured-sizer p={p} configured-size={el} reported-size-before={g.prevSize} queue_size={g.q.k.cap} got {st} want-refusal '{Check.expectedRefusal false g.q.k.block false g.q.k.cap g.prevSize el}'"
             | _, _ => g
           | _ => g
         -- before the drain nothing finishes: without wait_for_result the reported size is the configured size of what was accepted
